@@ -12,6 +12,7 @@ import (
 	"strconv"
 	"strings"
 	"sync"
+	"sync/atomic"
 	"time"
 
 	"github.com/emitter-io/emitter/internal/network/listener"
@@ -122,16 +123,16 @@ type holdSock struct {
 	chunked
 	mu      sync.Mutex
 	got     []byte
-	first   sync.Once
+	first   int32
 	entered chan struct{}
 	release chan struct{}
 }
 
 func (h *holdSock) Write(p []byte) (int, error) {
-	h.first.Do(func() {
+	if atomic.CompareAndSwapInt32(&h.first, 0, 1) { // only the first call stalls; later calls go straight through
 		close(h.entered)
 		<-h.release
-	})
+	}
 	h.mu.Lock()
 	h.got = append(h.got, p...)
 	h.mu.Unlock()
